@@ -209,6 +209,9 @@ pub struct Feed {
     /// how an unsigned element is handed to the visitor: 0 as u32, 1 narrowest unsigned type, 2 always u64, 3 i64
     pub deliver: u8,
     pub human: bool,
+    /// a non-self-describing peer: the `deserialize_*` method called must match what was written
+    /// (a tuple must be requested as a tuple, a sequence as a sequence, a number as a number)
+    pub strict: bool,
 }
 #[derive(Clone, Copy, Debug, PartialEq)]
 pub enum HintMode {
@@ -325,9 +328,29 @@ impl<'de, 'a> Deserializer<'de> for TokDe<'a> {
             Tok::Other(n) => Err(SimErr::Custom(format!("unsupported token {n}"))),
         }
     }
+    fn deserialize_seq<V: Visitor<'de>>(self, visitor: V) -> Result<V::Value, SimErr> {
+        let (strict, ok) = {
+            let f = self.0.borrow();
+            (f.strict, matches!(f.peek(), Some(Tok::Seq(_)) | None))
+        };
+        if strict && !ok {
+            return Err(SimErr::Custom("format mismatch: deserialize_seq called where the peer did not write a sequence".into()));
+        }
+        self.deserialize_any(visitor)
+    }
+    fn deserialize_tuple<V: Visitor<'de>>(self, len: usize, visitor: V) -> Result<V::Value, SimErr> {
+        let (strict, ok) = {
+            let f = self.0.borrow();
+            (f.strict, match f.peek() { Some(Tok::Tuple(n)) => *n == len, None => true, _ => false })
+        };
+        if strict && !ok {
+            return Err(SimErr::Custom(format!("format mismatch: deserialize_tuple({len}) called where the peer did not write such a tuple")));
+        }
+        self.deserialize_any(visitor)
+    }
     serde::forward_to_deserialize_any! {
         bool i8 i16 i32 i64 i128 u8 u16 u32 u64 u128 f32 f64 char str string
-        bytes byte_buf option unit unit_struct newtype_struct seq tuple
+        bytes byte_buf option unit unit_struct newtype_struct
         tuple_struct map struct enum identifier ignored_any
     }
     fn is_human_readable(&self) -> bool {
@@ -375,7 +398,14 @@ fn ser_tokens_h<T: Serialize>(v: &T, fail_at: Option<usize>, human: bool) -> (Re
     (r, t.toks, t.fired)
 }
 
-pub fn de_tokens<'de, T: serde::Deserialize<'de>>(
+thread_local! {
+    /// swarm bit of the current exchange: is the replaying peer strict about the requested shapes?
+    pub static STRICT: std::cell::Cell<bool> = std::cell::Cell::new(false);
+    /// after a failed deserialize_in_place: what the place looks like (canonical or not)
+    pub static PLACE_AFTER_ERR: RefCell<Option<String>> = RefCell::new(None);
+}
+
+pub fn de_tokens<'de, T: serde::Deserialize<'de> + 'static>(
     toks: Vec<Tok>,
     hint: HintMode,
     fail_at: Option<usize>,
@@ -385,7 +415,7 @@ pub fn de_tokens<'de, T: serde::Deserialize<'de>>(
 
 /// `deliver`/`human`: how the simulated format talks to the visitor; `in_place`: deserialize into an
 /// existing object (`Deserialize::deserialize_in_place`) instead of creating a new one.
-pub fn de_tokens_with<'de, T: serde::Deserialize<'de>>(
+pub fn de_tokens_with<'de, T: serde::Deserialize<'de> + 'static>(
     toks: Vec<Tok>,
     hint: HintMode,
     fail_at: Option<usize>,
@@ -402,9 +432,25 @@ pub fn de_tokens_with<'de, T: serde::Deserialize<'de>>(
         hint,
         deliver,
         human,
+        strict: STRICT.with(|c| c.get()),
     });
     let r = match in_place {
-        Some(mut place) => T::deserialize_in_place(TokDe(&feed), &mut place).map(|()| place),
+        Some(mut place) => match T::deserialize_in_place(TokDe(&feed), &mut place) {
+            Ok(()) => Ok(place),
+            Err(e) => {
+                // the value left behind must still be a well-formed object
+                let any: &dyn std::any::Any = &place;
+                let bad = if let Some(u) = any.downcast_ref::<BigUint>() {
+                    noncanonical_u(u)
+                } else if let Some(i) = any.downcast_ref::<BigInt>() {
+                    noncanonical_i(i)
+                } else {
+                    None
+                };
+                PLACE_AFTER_ERR.with(|p| *p.borrow_mut() = bad);
+                Err(e)
+            }
+        },
         None => T::deserialize(TokDe(&feed)),
     };
     (r, feed.into_inner())
@@ -491,9 +537,9 @@ pub fn gen(rng: &mut Prng, plan: &mut Plan) {
         let neg = rng.below(2) as i128;
         let s = match rng.below(12) {
             0 | 1 => Step::new("rt_u").l32("v", &v).i("route", rng.below(8) as i128).i("hint", gen_hint(rng))
-                .i("deliver", rng.below(4) as i128).i("human", rng.below(2) as i128).i("inplace", rng.chance(1, 4) as i128),
+                .i("deliver", rng.below(4) as i128).i("human", rng.below(2) as i128).i("inplace", rng.chance(1, 4) as i128).i("strict", rng.below(2) as i128),
             2 | 3 => Step::new("rt_i").l32("v", &v).i("neg", neg).i("route", rng.below(8) as i128).i("hint", gen_hint(rng))
-                .i("deliver", rng.below(4) as i128).i("human", rng.below(2) as i128).i("inplace", rng.chance(1, 4) as i128),
+                .i("deliver", rng.below(4) as i128).i("human", rng.below(2) as i128).i("inplace", rng.chance(1, 4) as i128).i("strict", rng.below(2) as i128),
             4 => {
                 let at = rng.below(v.len() as u64 + 3) as i128;
                 Step::new(if rng.chance(1, 2) { "serfail_u" } else { "serfail_i" })
@@ -530,7 +576,7 @@ pub fn gen(rng: &mut Prng, plan: &mut Plan) {
                     }
                     _ => {}
                 }
-                let mut s = Step::new("de_u").l("d", d.clone()).i("hint", gen_hint(rng)).i("deliver", rng.below(4) as i128).i("human", rng.below(2) as i128).i("inplace", rng.chance(1, 4) as i128);
+                let mut s = Step::new("de_u").l("d", d.clone()).i("hint", gen_hint(rng)).i("deliver", rng.below(4) as i128).i("human", rng.below(2) as i128).i("inplace", rng.chance(1, 3) as i128).i("strict", rng.below(2) as i128);
                 if rng.chance(1, 8) {
                     s = s.i("wide", 1);
                 }
@@ -559,7 +605,7 @@ pub fn gen(rng: &mut Prng, plan: &mut Plan) {
                     3 => sign = *rng.pick(&[2i128, -2, 127, -128, 3, 64, 255, 256, -129, u64::MAX as i128, u64::MAX as i128 - 1, 1 << 63, i64::MIN as i128, i64::MAX as i128, u32::MAX as i128, 1 << 32]),
                     _ => {}
                 }
-                let mut s = Step::new("de_i").i("sign", sign).i("sk", rng.below(3) as i128).l("d", d.clone()).i("hint", gen_hint(rng)).i("deliver", rng.below(4) as i128).i("human", rng.below(2) as i128).i("inplace", rng.chance(1, 4) as i128);
+                let mut s = Step::new("de_i").i("sign", sign).i("sk", rng.below(3) as i128).l("d", d.clone()).i("hint", gen_hint(rng)).i("deliver", rng.below(4) as i128).i("human", rng.below(2) as i128).i("inplace", rng.chance(1, 3) as i128).i("strict", rng.below(2) as i128);
                 if rng.chance(1, 10) {
                     s = s.i("nofield", 1);
                 }
@@ -579,6 +625,7 @@ pub fn gen(rng: &mut Prng, plan: &mut Plan) {
                     .l32("b", &v2)
                     .i("neg", neg)
                     .i("pad", rng.below(3) as i128)
+                    .i("strict", rng.below(2) as i128)
                     .i("hint", gen_hint(rng))
             }
         };
@@ -612,6 +659,13 @@ pub fn exec(plan: &Plan) -> RunResult {
                 return res;
             }};
         }
+        // a failed deserialize_in_place of the previous exchange must have left a well-formed object behind
+        if let Some(desc) = PLACE_AFTER_ERR.with(|p| p.borrow_mut().take()) {
+            res.violate(P, "inplace-after-error", "deserialize_in_place", si.saturating_sub(1), format!("after an error the object deserialized into is malformed: {desc}"));
+            res.digest = dg.0;
+            return res;
+        }
+        STRICT.with(|c| c.set(s.int("strict") != 0));
         let hint = hint_of(s);
         let hint_kind = s.int("hint").min(1);
         match op {
@@ -997,6 +1051,10 @@ pub fn exec(plan: &Plan) -> RunResult {
             }
         }
     }
+    if let Some(desc) = PLACE_AFTER_ERR.with(|p| p.borrow_mut().take()) {
+        res.violate(P, "inplace-after-error", "deserialize_in_place", plan.steps.len().saturating_sub(1), format!("after an error the object deserialized into is malformed: {desc}"));
+    }
+    STRICT.with(|c| c.set(false));
     res.digest = dg.0;
     res
 }
